@@ -68,16 +68,16 @@ func c03Specs(tier string, seed int) []c03Spec {
 		}
 	}
 	// lines carrying overrides followed by lines without them (and the other way round) in one session
-	for _, b := range [][]string{{"A", "Ag"}, {"Ag", "A"}, {"Ag", "A2", "A"}, {"Ao", "A"}, {"Ao", "A2", "B"}, {"A", "Ao", "A2"}, {"Bo", "B", "A"}, {"Ao", "Bo", "A"}, {"Bo", "Ao", "B"}, {"A", "B", "Ao"}} {
+	for _, b := range [][]string{{"A", "Ag"}, {"Ag", "A"}, {"Ag", "A2", "A"}, {"Ao", "A"}, {"Ao", "A2", "B"}, {"A", "Ao", "A2"}, {"Bo", "B", "A"}, {"Ao", "Bo", "A"}, {"Bo", "Ao", "B"}, {"A", "B", "Ao"}, {"As", "A"}, {"A", "As", "Ag"}, {"Ag", "As", "As"}} {
 		out = append(out, c03Spec{Kind: "seq", Batch: b})
 	}
-	out = append(out, c03Spec{Kind: "e3", Batch: []string{"Ao", "A2", "Bo"}, Conc: 2, Bound: bound, Days: 3}, c03Spec{Kind: "e3", Batch: []string{"Bo", "A"}, Conc: 2, Bound: -1, Days: 2}, c03Spec{Kind: "e3", Batch: []string{"Ag", "A"}, Conc: 2, Bound: -1, Days: 2})
+	out = append(out, c03Spec{Kind: "e3", Batch: []string{"Ao", "A2", "Bo"}, Conc: 2, Bound: bound, Days: 3}, c03Spec{Kind: "e3", Batch: []string{"Bo", "A"}, Conc: 2, Bound: -1, Days: 2}, c03Spec{Kind: "e3", Batch: []string{"Ag", "A"}, Conc: 2, Bound: -1, Days: 2}, c03Spec{Kind: "e3", Batch: []string{"As", "A"}, Conc: 2, Bound: -1, Days: 2})
 	out = append(out, c03Spec{Kind: "race", Conc: 4}, c03Spec{Kind: "race", Conc: 8})
 	// a project without configuration file (the first run generates one on disk): both orders of two lines with different overrides
 	out = append(out, c03Spec{Kind: "noconfig"})
 	// the same line again and again in fresh sessions (the runtime randomises map iteration per execution), with the
 	// batch-line arguments in every order
-	for _, n := range []string{"A", "B", "C"} {
+	for _, n := range []string{"A", "B", "C", "As"} {
 		out = append(out, c03Spec{Kind: "repeat", Batch: []string{n}})
 	}
 	// split the heavy explorations (bound >= 2 with 3+ lines) into 8 shards each; heavy ones first so that they start early
@@ -247,7 +247,7 @@ func c03Run(raw json.RawMessage, c *mc.Ctx) {
 	case "repeat":
 		w := buildBatchWorld(root, 45)
 		extra := []string{"c_MAXAMAX=44", "c_TSUM_1=160", "c_TSUM_2=300", "c_KC_3=1.1", "c_PRO_2_1=0.3", "c_PRO_2_2=0.7", "NDeposition=33", "Fertilization=80", "KcFactorBareSoil=0.5"}
-		crop := map[string]string{"A": "PARAM.XWA", "B": "PARAM.XWB", "C": "PARAM.SM"}[sp.Batch[0]]
+		crop := map[string]string{"A": "PARAM.XWA", "As": "PARAM.XWA", "B": "PARAM.XWB", "C": "PARAM.SM"}[sp.Batch[0]]
 		base := strings.Fields(w.Lines[sp.Batch[0]])
 		var first string
 		n := 0
